@@ -431,7 +431,7 @@ def gen_config(rng, with_fleet=False):
     for n in nodes:
         n["style"] = rng.choice(["const", "callable", "generator"])
         n["blocking"] = rng.random() < 0.6
-        n["setup"] = rng.choice([0, 0, 1, 2])
+        n["setup"] = rng.choice([0, 0, 1, 2, 0, 0, 1, 2, 0, 1, 2, 15, 60])   # now and then longer than the horizon
         n["wcap"] = rng.choice([1, 1, 2, 3]) if n["kind"] == "machine" else 1
         n["insel"] = gen_policy(rng, max(1, len(n["ins"]))) if n["kind"] == "machine" else ("FA",)
         n["outsel"] = gen_policy(rng, max(1, len(n["outs"]))) if n["kind"] != "sink" else ("FA",)
@@ -447,7 +447,7 @@ def gen_config(rng, with_fleet=False):
             n["delays"] = n["delays"][:1]
     order = ["N%d" % i for i in range(len(nodes))] + ["E%d" % i for i in range(len(edges))]
     rng.shuffle(order)
-    return dict(model="factory", T=rng.choice([10, 20, 30, 40]), nodes=nodes, edges=edges, connects=connects, order=order)
+    return dict(model="factory", T=rng.choice([10, 20, 30, 40, 10, 20, 30, 40, 3]), nodes=nodes, edges=edges, connects=connects, order=order)
 
 
 def gen_config_sc(rng):
@@ -518,7 +518,7 @@ def gen_config_sc(rng):
     for n in nodes:
         n["style"] = rng.choice(["const", "callable", "generator"])
         n["blocking"] = rng.random() < 0.65
-        n["setup"] = rng.choice([0, 0, 1, 2])
+        n["setup"] = rng.choice([0, 0, 1, 2, 0, 0, 1, 2, 0, 1, 2, 15, 60])   # now and then longer than the horizon
         n["wcap"] = rng.choice([1, 2]) if n["kind"] == "machine" else 1
         n["insel"] = gen_policy(rng, max(1, len(n["ins"]))) if n["kind"] in ("machine", "splitter") else ("FA",)
         n["outsel"] = gen_policy(rng, max(1, len(n["outs"]))) if n["kind"] != "sink" else ("FA",)
